@@ -239,6 +239,33 @@ func runWeb(c *harness.Ctx) harness.Result {
 		}(g, seed)
 	}
 	rg.Wait()
+	// concurrent saves equal sequential ones: every configuration saved under a name of its own,
+	// all at the same moment, is there afterwards (nobody deletes these names)
+	if bad.Load() == nil {
+		var sg sync.WaitGroup
+		gate := make(chan struct{})
+		for g := 0; g < n; g++ {
+			sg.Add(1)
+			go func(g int) {
+				defer sg.Done()
+				<-gate
+				if code, body, pn := web.Get(fmt.Sprintf("/saveconfig?config=own%02d&f=o%d", g, g)); pn != "" || code != 200 {
+					bad.Store(fmt.Sprintf("concurrent /saveconfig failed: %d %s %s", code, body, pn))
+				}
+			}(g)
+		}
+		close(gate)
+		sg.Wait()
+		c.Stat("web_simultaneous_saves", int64(n))
+		if _, page, _ := web.Get("/top"); bad.Load() == nil {
+			for g := 0; g < n; g++ {
+				if name := fmt.Sprintf("own%02d", g); !strings.Contains(page, name) {
+					bad.Store(fmt.Sprintf("%d configurations were saved at the same moment under names of their own and every save was acknowledged with status 200; afterwards %s is not among the configurations the page lists (a sequential run keeps all of them)", n, name))
+					break
+				}
+			}
+		}
+	}
 	close(stop)
 	wg.Wait()
 	c.Stat("web_ops", int64(len(st.spans)))
